@@ -241,3 +241,72 @@ def c19_event(run, d, cur_writer):
         from . import threads as _t
         ev["principalResolves"] = _t.find_map(_t.parse_maps(d["oracle"]["maps"]), pa) is not None
     return ev
+
+
+# --------------------------------------------------------------------------------------------------------------------
+# Cross pool: targets and writer configurations in which every knob the harness has is drawn independently, so that the
+# per-property projections are also exercised on combinations no dedicated scenario list contains (option x option,
+# option x process shape).  Each property's check runs the pool itself and applies its own projection.
+CROSS_NAMES = [b"", b"worker", b"0123456789abcde", "caf\u00e9".encode(), b"two words", b"trail ", b"two\nlines", b"carriage\r", "\U0001f600x".encode(), b"tab\there"]
+
+
+def cross_scenarios(quick, seed, n=None, tag="cross"):
+    import random
+    rnd = random.Random(seed * 7919 + 13)
+    scns = []
+    for k in range(n if n is not None else (10 if quick else 120)):
+        nt = rnd.choice([0, 1, 2, 4, 7, 23, 30])
+        threads = []
+        for i in range(nt):
+            pages = rnd.choice([1, 1, 2, 3])
+            t = {"mode": "pause", "stack_pages": pages, "sp_off": rnd.choice([0, 8, 0x100, 0x700, 0x7f8, 0x800, 0x900, 0xb03, 0xff8]) + 4096 * rnd.randrange(pages), "seed": 100 * k + i + 1,
+                 "below": rnd.choice(["guard", "hole", "mapped"])}
+            if rnd.random() < 0.7:
+                t["name_hex"] = rnd.choice(CROSS_NAMES).hex()
+            if rnd.random() < 0.5:
+                t["words"] = [[8 * j, v] for j, v in enumerate(rnd.sample([{"region": "prin", "off": 64}, {"region": "code", "off": 16}, {"region": "data", "off": 32}, 7, 4097, {"self_stack": True, "off": 24},
+                                                                          {"region_map_end": "prin", "off": 0}, {"region_map": "prin", "off": 0}], rnd.randrange(1, 4)), start=rnd.randrange(0, 10))]
+            if rnd.random() < 0.15:
+                t["low_addr"] = 0x10000000 + 0x100000 * i
+            if rnd.random() < 0.1:
+                t["unshare_files"] = True
+            threads.append(t)
+        regions = [{"name": "code", "len": 8192, "exec": True, "below": rnd.choice(["mapped", "guard", "hole"]), "above": rnd.choice(["mapped", "guard", "hole"])},
+                   {"name": "prin", "len": 8192, "exec": rnd.random() < 0.7}, {"name": "data", "len": 4096},
+                   {"name": "app0", "len": rnd.choice([1, 7, 3000, 4096, 70000]), "lead": rnd.randrange(0, 32), "at_end": True, "above": "hole"}]
+        if rnd.random() < 0.3:
+            regions.append({"name": "lowdata", "len": 8192, "low_addr": 0x8000000})
+        tgt = {"threads": threads, "regions": regions, "pipes": rnd.randrange(0, 3), "sockets": rnd.randrange(0, 2)}
+        if rnd.random() < 0.2:
+            tgt["env_clear"] = True
+        if rnd.random() < 0.5:
+            tgt["main_name_hex"] = rnd.choice(CROSS_NAMES).hex()
+        w = {"blamed": "main"}
+        if nt and rnd.random() < 0.6:
+            w["blamed"] = {"slot": rnd.randrange(nt)}
+        if rnd.random() < 0.5 and isinstance(w["blamed"], dict):
+            b = w["blamed"]["slot"]
+            w["crash_context"] = {"sp": {"thread_sp": b}, "ip": rnd.choice([{"region": "code", "off": rnd.choice([0, 64, 127, 128, 8191])}, {"region": "prin", "off": 100}, "0x10", {"region_map_end": "code", "off": 0}]),
+                                  "gregs_seed": 31 * k + 5, "siginfo": {"signo": rnd.choice([11, 7, 31, 6, 4]), "code": rnd.choice([1, 2, -6]), "addr": hex(rnd.getrandbits(64))}}
+            if rnd.random() < 0.3:
+                w["crash_context"]["tid"] = rnd.choice([0, "main", {"slot": (b + 1) % nt}])
+        if rnd.random() < 0.4:
+            w["size_limit"] = rnd.choice([1000, 300000, 5000000])
+        if rnd.random() < 0.4:
+            w["sanitize"] = True
+        if rnd.random() < 0.4:
+            w["skip"] = True
+            w["principal"] = rnd.choice([{"region": "prin", "off": 100}, {"region": "prin", "off": 8191}, "0x30"])
+        am = []
+        if rnd.random() < 0.5:
+            am.append({"addr": {"region": "app0"}, "len": regions[3]["len"] + rnd.choice([0, 0, 4096])})
+        if nt and rnd.random() < 0.3:
+            am.append({"addr": {"thread_sp": rnd.randrange(nt), "off": 32}, "len": 64})
+        if am:
+            w["app_memory"] = am
+        if rnd.random() < 0.25:
+            w["user_mappings"] = [{"start": {"region_map": "data"}, "size": 4096, "name": "/user/lib data.so", "id_hex": "00112233445566778899aabbccddeeff"}]
+        if rnd.random() < 0.25:
+            w["direct_auxv"] = {"entry": {"module": "libc.so.6", "off": 0x100}}
+        scns.append({"id": f"{tag}/{k}", "target": tgt, "writer": w, "want_regs": True, "want_stacks": True, "faults": {"start": rnd.choice([0, 0, 5, 4096]), "pre_len": rnd.choice([0, 300000])}})
+    return scns
